@@ -9,12 +9,14 @@ import (
 	"fmt"
 	"math/big"
 	"math/rand"
+	"regexp"
 	"strconv"
 	"strings"
 
 	"github.com/aperturerobotics/bifrost/crypto"
 	"github.com/aperturerobotics/bifrost/envelope"
 	"github.com/aperturerobotics/bifrost/peer"
+	"github.com/zeebo/blake3"
 	"verifharness/internal/hx"
 )
 
@@ -194,6 +196,8 @@ type tamper struct {
 	ki     uint32
 	k      int
 	shares []share
+	c2     string   // ctxhashfor: the context whose hash replaces context_hash
+	subs   []tamper // multi: fields changed in order
 }
 
 func u32list(l []uint32) string {
@@ -236,6 +240,14 @@ func (t tamper) term() string {
 		return "TNoGrants"
 	case "nokeypairs":
 		return "TNoKeypairs"
+	case "ctxhashfor":
+		return hx.App("TCtxHashFor", hx.Str(t.c2))
+	case "multi":
+		items := make([]string, len(t.subs))
+		for i, st := range t.subs {
+			items[i] = st.term()
+		}
+		return hx.App("TMulti", hx.List(items))
 	}
 	return "TNone"
 }
@@ -305,6 +317,13 @@ func (t tamper) apply(env *envelope.Envelope, ctx string, keys []keypair) *envel
 		e.Grants = nil
 	case "nokeypairs":
 		e.Keypairs = nil
+	case "ctxhashfor":
+		h := blake3.Sum256([]byte(t.c2))
+		e.ContextHash = h[:]
+	case "multi":
+		for _, st := range t.subs {
+			e = st.apply(e, ctx, keys)
+		}
 	}
 	return e
 }
@@ -893,6 +912,12 @@ func c18(g *gen, ctxs []string, payload func() []byte) {
 			n++
 		}
 	}
+	// multi-field tampering an attacker can compute without secrets: the
+	// envelope id rewritten AND the context hash recomputed for another context
+	// c2 (optionally with the threshold changed / grants reordered or duplicated),
+	// with (id, context) from the framing-injection families: an id or context
+	// that embeds the other field's (length-prefixed) form.
+	n += g.rebind()
 	// string classes: (seal context, unseal context) pairs, envelope ids, payload sizes
 	{
 		cf := config{nkeys: 1, threshold: 0, grants: []grantCfg{{1, []uint32{0}}}}
@@ -1009,6 +1034,21 @@ func c18(g *gen, ctxs []string, payload func() []byte) {
 			continue
 		}
 		tm := g.tamper(b)
+		if g.pick(4) == 0 { // two or three fields at once
+			subs := []tamper{tm, g.tamper(b)}
+			if g.pick(3) == 0 {
+				subs = append(subs, g.tamper(b))
+			}
+			ok := true
+			for _, st := range subs { // tampers whose indexes refer to the original layout only
+				if st.kind == "nogrants" || st.kind == "dupgrant" || st.kind == "swapgrants" && st.i != st.j {
+					ok = ok && st.kind != "nogrants"
+				}
+			}
+			if ok {
+				tm = tamper{kind: "multi", subs: subs}
+			}
+		}
 		te := tm.apply(b.env, b.ctx, g.keys)
 		o := unlock(b.ctx, te, g.privs(sel))
 		g.checkTamper(b, "field-tampered", o, map[string]any{"config": cf.String(), "tamper": tm.term(), "offered_keys": sel})
@@ -1040,6 +1080,89 @@ func c18(g *gen, ctxs []string, payload func() []byte) {
 			g.wire(b, c.RandBytes(g.pick(200)), sel, "random-bytes")
 		}
 	}
+}
+
+var lenPrefix = regexp.MustCompile(`^[ \x00]?[0-9]+:`)
+
+// rebind: see c18.  Returns the number of Coq cases emitted.
+func (g *gen) rebind() int {
+	c := g.c
+	emitted := 0
+	sealCtxs := []string{"tenant-a 8:tenant-b", "a b", "a\x00b", "p 1:x", "x 3:abc 0", "app 5:other", "ns:prod 7:ns:test", "c1 2:c2 2:c3", "9:tenant-b"}
+	ids := []string{"", "env-1", "e 5:env-1"}
+	extras := []tamper{{}, {kind: "threshold", t: 0}, {kind: "threshold", t: 1}, {kind: "swapgrants", i: 0, j: 1}, {kind: "dupgrant", i: 0}}
+	for si, sealCtx := range sealCtxs {
+		for ii, id := range ids {
+			cf := config{nkeys: 2, id: id, threshold: 1, grants: []grantCfg{{1, []uint32{0}}, {1, []uint32{1}}}}
+			if (si+ii)%2 == 0 {
+				cf = config{nkeys: 1, id: id, threshold: 0, grants: []grantCfg{{1, []uint32{0}}}}
+			}
+			b := g.build(cf, sealCtx, []byte("sealed payload"))
+			if b.err != nil {
+				continue
+			}
+			realID := b.env.EnvelopeId
+			sel := g.allSel(cf)
+			type forged struct{ id, c2 string }
+			seen := map[forged]bool{}
+			var cands []forged
+			add := func(id2, c2 string) {
+				f := forged{id2, c2}
+				if !seen[f] {
+					seen[f] = true
+					cands = append(cands, f)
+				}
+			}
+			for k := 0; k <= len(sealCtx); k++ {
+				head, tail := sealCtx[:k], sealCtx[k:]
+				tails := []string{tail, strings.TrimLeft(tail, " \x00"), lenPrefix.ReplaceAllString(tail, "")}
+				heads := []string{realID + head, realID + " " + head, realID + "\x00" + head,
+					realID + " " + strconv.Itoa(len(sealCtx)) + ":" + head,
+					realID + " " + strconv.Itoa(len(head)) + ":" + head,
+					strconv.Itoa(len(realID)) + ":" + realID + " " + strconv.Itoa(len(sealCtx)) + ":" + head,
+					realID + strconv.Itoa(len(sealCtx)) + ":" + head}
+				for _, h := range heads {
+					for _, t := range tails {
+						add(h, t)
+					}
+				}
+			}
+			// the same envelope id with the hash of unrelated contexts, and id-only rewrites
+			add(realID, "tenant-b")
+			add(realID+" ", sealCtx)
+			add(realID, sealCtx+" ")
+			for ci, f := range cands {
+				extra := extras[(ci+si)%len(extras)]
+				if extra.kind == "swapgrants" && len(b.env.Grants) < 2 {
+					extra = tamper{}
+				}
+				subs := []tamper{{kind: "envid", id: f.id}, {kind: "ctxhashfor", c2: f.c2}}
+				if extra.kind != "" {
+					subs = append(subs, extra)
+				}
+				tm := tamper{kind: "multi", subs: subs}
+				o := unlock(f.c2, tm.apply(b.env, b.ctx, g.keys), g.privs(sel))
+				in := map[string]any{"kind": "rebind", "config": cf.String(), "seal_ctx": sealCtx, "envelope_id": realID,
+					"forged_id": f.id, "unseal_ctx": f.c2, "extra": extra.term()}
+				g.checkTamper(b, "multi-field tampered", o, in)
+				if !o.panicked && o.err == nil && o.res.GetSuccess() && f.c2 != sealCtx {
+					c.Failf("unsealed-under-other-context", in, "an envelope sealed under %q was unsealed with success under the different context %q after rewriting envelope_id to %q and context_hash to hash(%q)", sealCtx, f.c2, f.id, f.c2)
+				}
+				if !o.panicked && o.err == nil && o.res.GetSuccess() && f.c2 == sealCtx && f.id != realID {
+					c.Failf("envelope-id-not-bound", in, "envelope opened after its id was replaced by %q", f.id)
+				}
+				// a few per envelope also go to Coq: the length-prefix embedding ones first
+				if ci%97 == 3 || (f.id == realID+" "+strconv.Itoa(len(sealCtx))+":"+sealCtx[:strings.IndexAny(sealCtx+" ", " \x00")] && ci%5 == 0) {
+					g.emit(b, tm, sel, f.c2, &o)
+					c.Class("tamper-multi-rebind")
+					emitted++
+				} else {
+					c.Eval()
+				}
+			}
+		}
+	}
+	return emitted
 }
 
 func (g *gen) wire(b built, w []byte, sel []int, what string) {
